@@ -60,6 +60,39 @@ Lemma tie_c11_subscribe_chans : f_c11_subscribe_chans = ["abort:0"; "events:0"; 
 Proof. reflexivity. Qed.
 Lemma tie_c11_ondisconnect_chans : f_c11_ondisconnect_chans = ["consumer:" ++ cap_str (capacity (OCb 0))].
 Proof. reflexivity. Qed.
+(* The stream wrappers of bus/net/stream.go, between the transport and the endpoint.  LReadFail /
+   LCallSendFail / LProcClose1 are "the transport's Read / Write failed / Close was called": that is
+   what e.stream.Read/Write/Close are only as long as the wrappers hand every result through
+   unchanged, whatever the kind of the error.  connStream declares String and Context only (Read,
+   Write, Close are those of the embedded net.Conn, promoted); pipeStream's are one call each.
+   A wrapper that interprets an error (retries it, maps it to nil, delays it) changes this list or
+   one of the texts. *)
+Lemma tie_c11_stream_methods : f_c11_stream_methods =
+  ["*pipeStream.Close"; "*pipeStream.Context"; "*pipeStream.Read"; "*pipeStream.String"; "*pipeStream.Write";
+   "connStream.Context"; "connStream.String"].
+Proof. reflexivity. Qed.
+Lemma tie_c11_stream_fields : f_c11_stream_fields =
+  ["connStream{gonet.Conn; ctx context.Context}"; "pipeStream{r *os.File; w *os.File; ctx context.Context}"].
+Proof. reflexivity. Qed.
+Lemma tie_c11_text_pipeStream_Read : f_c11_text_pipeStream_Read =
+  "func (p *pipeStream) Read(d []byte) (int, error) { return p.r.Read(d) }".
+Proof. reflexivity. Qed.
+Lemma tie_c11_text_pipeStream_Write : f_c11_text_pipeStream_Write =
+  "func (p *pipeStream) Write(d []byte) (int, error) { return p.w.Write(d) }".
+Proof. reflexivity. Qed.
+Lemma tie_c11_text_pipeStream_Close : f_c11_text_pipeStream_Close =
+  "func (p *pipeStream) Close() error { p.r.Close() p.w.Close() return nil }".
+Proof. reflexivity. Qed.
+Lemma tie_c11_text_ConnStream : f_c11_text_ConnStream =
+  "func ConnStream(conn gonet.Conn) Stream { return connStream{ conn, context.TODO(), } }".
+Proof. reflexivity. Qed.
+Lemma tie_c11_text_PipeStream : f_c11_text_PipeStream =
+  "func PipeStream(r, w *os.File) Stream { return &pipeStream{ r: r, w: w, ctx: context.TODO(), } }".
+Proof. reflexivity. Qed.
+Lemma tie_c11_text_ConnEndPoint : f_c11_text_ConnEndPoint =
+  "func ConnEndPoint(conn gonet.Conn) EndPoint { return NewEndPoint(ConnStream(conn)) }".
+Proof. reflexivity. Qed.
+
 (* the table starts with ten empty slots *)
 Lemma tie_c11_table_init : length (table (init 0 0 0)) = 10.
 Proof. reflexivity. Qed.
